@@ -1,12 +1,898 @@
-/- C12 model — placeholder until the property is built -/
+/-
+  C12 — the lexer and the recursive-descent parser of klongpy on `(List Char, Nat index)`.
+
+  Mirrors klongpy/parser.py:
+    cmatch, cmatch2, cexpect                -> `cmatch`, `cmatch2`, `cexpect`
+    skip_space, read_shifted_comment, skip  -> `skipSpace`, `readShiftedComment`, `skip`
+                                               (`skip` is the fusion of the three loops into one
+                                               recursion over the remaining suffix)
+    read_num, read_string, read_char,
+    read_sym, read_op, peek_adverb          -> `readNum`, `readString`, `readChar`, `readSym`,
+                                               `readOp`, `peekAdverb`
+    read_sys_comment                        -> `readSysComment` (bounded `startswith` loop)
+    kg_read, read_list, list_to_dict        -> `kgRead`, `readList`, `readListLoop`, `listToDict`
+    kg_read_array                           -> `kgReadArray`
+    read_cond, read_expr_array              -> `readCond`, `readExprArray`, `exprArrayLoop`
+  and klongpy/interpreter.py:
+    prog, _expr, _factor, _read_fn_args,
+    _apply_adverbs, parse_module            -> `prog`, `progLoop`, `expr`, `exprLoop`, `factor`,
+                                               `readFnArgs`, `fnArgsLoop`, `applyAdverbs`,
+                                               `parseModule`
+    types.get_fn_arity                      -> `fnArity`
+
+  Conventions (DESIGN §7/C12):
+  * scanning loops of the lexer recurse structurally over the remaining suffix `t.drop i`
+    (Lean demands the progress argument at definition time);
+  * every `while` of the parser is a recursion whose body result `i'` is tested:
+    `if i < i' then continue at i' else .spin`;
+  * `read_sys_comment`'s loop condition does not depend on the index: it gets the explicit
+    bound `t.length + 1` and returns `.spin` beyond it;
+  * recursion between parser functions carries fuel (`.outOfFuel`);
+  * every function counts steps (`st`): one per call / loop iteration plus the distance
+    scanned by the lexer loops it runs.
+  The AST is a skeleton (`Node`): node kinds, names, structure — everything the Python
+  control flow looks at (`safe_eq(a, ';')`, `isinstance(a, KGSym)`, `_is_monad`, `has_none`,
+  hashability in `get_fn_arity`, subscripting in `list_to_dict`, `str(module)`).
+-/
 import Klong.Model.Wire
 namespace Klong.C12
+
+/-- what the parser needs to know about characters and the interpreter -/
+structure Cfg where
+  isSpace : Char → Bool      -- str.isspace
+  isAlpha : Char → Bool      -- str.isalpha
+  isDigit : Char → Bool      -- str.isdigit
+  isNumeric : Char → Bool    -- str.isnumeric
+  monads : List (List Char)  -- keys of KlongInterpreter._vm
+  guardEmptyMarker : Bool    -- true: the repaired read_sys_comment (`while a and …`)
+
+abbrev Text := List Char
+
+/-! ## AST skeleton -/
+
+inductive Node where
+  | none                                         -- Python None
+  | str (s : List Char)                          -- Python str: string literal or punctuation token
+  | chr (c : Char)                               -- KGChar (a str subclass)
+  | int (src : List Char)                        -- Python int, source text kept
+  | flt (src : List Char)                        -- Python float, source text kept
+  | sym (name : List Char)                       -- KGSym
+  | op (name : List Char)                        -- KGOp
+  | pylist (xs : List Node)                      -- Python list (lexer list, program, adverb chain)
+  | arr (xs : List Node)                         -- ndarray made by kg_asarray
+  | dict (xs : List Node)                        -- KGCall(copy_lambda, args=dict)
+  | fn (a : Node) (hasArgs : Bool) (args : List Node) (arity : Nat) (call : Bool)  -- KGFn / KGCall
+  | mfn (a : Node) (x : Node)                    -- KGFn(op, x, arity=1): the argument is not a list
+  | adv (a : Node) (arity : Nat)                 -- KGAdverb
+  | cond (xs : List Node)                        -- KGCond
+  | exprArr (xs : List Node)                     -- KGExprArray
+  deriving Inhabited
+
+/-- `safe_eq(a, s)` / `a == s` for a Python str `s`: true for a str or KGChar with that text
+    (KGSym.__eq__ answers False for a plain str) -/
+def Node.isStr (a : Node) (s : List Char) : Bool :=
+  match a with
+  | .str x => x == s
+  | .chr c => [c] == s
+  | _ => false
+
+def Node.isNone : Node → Bool
+  | .none => true
+  | _ => false
+
+def Node.isSym : Node → Bool
+  | .sym _ => true
+  | _ => false
+
+def Node.isOpOrSym : Node → Bool
+  | .sym _ => true
+  | .op _ => true
+  | _ => false
+
+/-- `has_none(a)` for an argument list -/
+def hasNone (xs : List Node) : Bool := xs.any Node.isNone
+
+/-- objects Python cannot hash: ndarray, list and its subclasses -/
+def Node.unhashable : Node → Bool
+  | .arr _ => true
+  | .pylist _ => true
+  | .cond _ => true
+  | .exprArr _ => true
+  | _ => false
+
+def reservedNames : List (List Char) := [['x'], ['y'], ['z']]
+
+/-- `reserved_fn_symbols` membership -/
+def Node.isReserved : Node → Bool
+  | .sym n => reservedNames.contains n
+  | _ => false
+
+inductive Err where
+  | unexpectedChar (pos : Nat)
+  | unexpectedEOF (pos : Nat)
+  | valueError
+  | typeError
+  | indexError
+  | runtimeError
+  deriving Repr, DecidableEq
+
+/-- parse-time interpreter state: `self._module` as `str(module)` (none = no module);
+    `exotic` is set once the module object is one whose `str()` the model does not describe -/
+structure PState where
+  mod : Option (List Char) := none
+  exotic : Bool := false
+  deriving Repr, DecidableEq
+
+inductive Res (α : Type) where
+  | ok (i : Nat) (v : α) (m : PState) (st : Nat)
+  | err (e : Err) (m : PState) (st : Nat)
+  | spin (st : Nat)             -- the real loop would run again from the same index
+  | outOfFuel
+  deriving Inhabited
+
+def Res.isSpin {α} : Res α → Bool
+  | .spin _ => true
+  | _ => false
+
+def Res.isOutOfFuel {α} : Res α → Bool
+  | .outOfFuel => true
+  | _ => false
+
+def Res.isOk {α} : Res α → Bool
+  | .ok .. => true
+  | _ => false
+
+def Res.isErr {α} : Res α → Bool
+  | .err .. => true
+  | _ => false
+
+def Res.steps {α} : Res α → Nat
+  | .ok _ _ _ st => st
+  | .err _ _ st => st
+  | .spin st => st
+  | .outOfFuel => 0
+
+def Res.addSteps {α} (r : Res α) (k : Nat) : Res α :=
+  match r with
+  | .ok i v m st => .ok i v m (st + k)
+  | .err e m st => .err e m (st + k)
+  | .spin st => .spin (st + k)
+  | .outOfFuel => .outOfFuel
+
+/-- sequencing: run `k` on a successful result, adding up the steps -/
+def Res.bind {α β} (r : Res α) (k : Nat → α → PState → Res β) : Res β :=
+  match r with
+  | .ok i v m st => (k i v m).addSteps st
+  | .err e m st => .err e m st
+  | .spin st => .spin st
+  | .outOfFuel => .outOfFuel
+
+/-! ## character matching -/
+
+def cmatch (t : Text) (i : Nat) (c : Char) : Bool := t[i]? == some c
+
+def cmatch2 (t : Text) (i : Nat) (a b : Char) : Bool := cmatch t i a && cmatch t (i + 1) b
+
+/-- `cexpect`: index after `c`, or UnexpectedChar -/
+def cexpect {α} (t : Text) (i : Nat) (c : Char) (m : PState) (k : Nat → Res α) : Res α :=
+  if cmatch t i c then k (i + 1) else .err (.unexpectedChar i) m 1
+
+/-! ## scanning loops (structural recursion over the remaining suffix) -/
+
+/-- `skip_space` on the suffix `s = t.drop i` -/
+def skipSpaceGo (cfg : Cfg) (ign : Bool) : List Char → Nat → Nat
+  | [], i => i
+  | c :: cs, i => if cfg.isSpace c && (ign || c != '\n') then skipSpaceGo cfg ign cs (i + 1) else i
+
+def skipSpace (cfg : Cfg) (t : Text) (i : Nat) (ign : Bool) : Nat := skipSpaceGo cfg ign (t.drop i) i
+
+/-- `read_shifted_comment` on the suffix: ends after the first `"` that is not doubled -/
+def shiftedGo : List Char → Nat → Nat
+  | [], i => i
+  | c :: cs, i =>
+    if c == '"' then
+      match cs with
+      | d :: cs' => if d == '"' then shiftedGo cs' (i + 2) else i + 1
+      | [] => i + 1
+    else shiftedGo cs (i + 1)
+
+def readShiftedComment (t : Text) (i : Nat) : Nat := shiftedGo (t.drop i) i
+
+/-- `skip`: skip_space, then as long as a `:"` comment follows, read it and skip again (the
+    recursive call of the Python passes `ignore_newline=False`).  One recursion over the
+    suffix with a mode flag: `inC = true` while inside a shifted comment. -/
+def skipGo (cfg : Cfg) : (inC : Bool) → (ign : Bool) → List Char → Nat → Nat
+  | _, _, [], i => i
+  | false, ign, c :: cs, i =>
+    if cfg.isSpace c && (ign || c != '\n') then skipGo cfg false ign cs (i + 1)
+    else if c == ':' then
+      match cs with
+      | d :: cs' => if d == '"' then skipGo cfg true false cs' (i + 2) else i
+      | [] => i
+    else i
+  | true, ign, c :: cs, i =>
+    if c == '"' then
+      if cs.head? == some '"' then
+        match cs with
+        | _ :: cs' => skipGo cfg true ign cs' (i + 2)
+        | [] => i + 1
+      else skipGo cfg false false cs (i + 1)
+    else skipGo cfg true ign cs (i + 1)
+
+def skip (cfg : Cfg) (t : Text) (i : Nat) (ign : Bool) : Nat := skipGo cfg false ign (t.drop i) i
+
+def isSign (o : Option Char) : Bool := o == some '-' || o == some '+'
+
+/-- `read_num` loop: `.` and `e` are accepted anywhere; after `e` a sign and the character
+    after it are stepped over unchecked (`i += 2` then `i += 1`) -/
+def readNumGo (cfg : Cfg) : List Char → Nat → Bool → Nat × Bool
+  | [], i, f => (i, f)
+  | c :: cs, i, f =>
+    if c == '.' then readNumGo cfg cs (i + 1) true
+    else if c == 'e' then
+      if isSign cs.head? then
+        match cs with
+        | _ :: _ :: cs'' => readNumGo cfg cs'' (i + 3) true
+        | _ => (i + 3, true)
+      else readNumGo cfg cs (i + 1) true
+    else if !cfg.isNumeric c then (i, f)
+    else readNumGo cfg cs (i + 1) f
+
+def isAsciiDigit (c : Char) : Bool := '0' ≤ c && c ≤ '9'
+
+def dropDigits : List Char → List Char
+  | [] => []
+  | c :: cs => if isAsciiDigit c then dropDigits cs else c :: cs
+
+/-- the exponent part of Python's float grammar: `` | e [+-]? D+ -/
+def pyExpOk : List Char → Bool
+  | [] => true
+  | c :: cs =>
+    if c == 'e' then
+      let r := match cs with
+        | s :: cs' => if s == '-' || s == '+' then cs' else cs
+        | [] => cs
+      match r with
+      | d :: _ => isAsciiDigit d && (dropDigits r).isEmpty
+      | [] => false
+    else false
+
+/-- `float(s)` succeeds, for the spans `read_num` can cut out: `-? D+ (. D*)? (e [+-]? D+)?` -/
+def pyFloatOk (s : List Char) : Bool :=
+  let s := match s with
+    | c :: cs => if c == '-' then cs else s
+    | [] => s
+  match s with
+  | d :: _ =>
+    if isAsciiDigit d then
+      match dropDigits s with
+      | c :: cs => if c == '.' then pyExpOk (dropDigits cs) else pyExpOk (c :: cs)
+      | [] => true
+    else false
+  | [] => false
+
+/-- `int(s)` succeeds: `-? D+` (and at most 4300 digits, CPython's int-from-str limit) -/
+def pyIntOk (s : List Char) : Bool :=
+  let s := match s with
+    | c :: cs => if c == '-' then cs else s
+    | [] => s
+  !s.isEmpty && s.all isAsciiDigit && s.length ≤ 4300
+
+def slice (t : Text) (p i : Nat) : List Char := (t.drop p).take (i - p)
+
+/-- `read_num`: (end index, token) or ValueError from `float()`/`int()` -/
+def readNum (cfg : Cfg) (t : Text) (i : Nat) : Nat × Option Node :=
+  let i1 := if cmatch t i '-' then i + 1 else i
+  let (i2, f) := readNumGo cfg (t.drop i1) i1 false
+  let src := slice t i i2
+  if f then (i2, if pyFloatOk src then some (.flt src) else none)
+  else (i2, if pyIntOk src then some (.int src) else none)
+
+/-- `read_string` loop: `""` is a quote, a single `"` ends the string, EOF ends it too -/
+def readStringGo : List Char → Nat → List Char → Nat × List Char
+  | [], i, acc => (i, acc.reverse)
+  | c :: cs, i, acc =>
+    if c == '"' then
+      match cs with
+      | d :: cs' => if d == '"' then readStringGo cs' (i + 2) ('"' :: acc) else (i + 1, acc.reverse)
+      | [] => (i + 1, acc.reverse)
+    else readStringGo cs (i + 1) (c :: acc)
+
+def readString (t : Text) (i : Nat) : Nat × List Char := readStringGo (t.drop i) i []
+
+def isSymbolic (cfg : Cfg) (c : Char) : Bool := cfg.isAlpha c || cfg.isDigit c || c == '.'
+
+def readSymGo (cfg : Cfg) : List Char → Nat → List Char → Nat × List Char
+  | [], i, acc => (i, acc.reverse)
+  | c :: cs, i, acc => if isSymbolic cfg c then readSymGo cfg cs (i + 1) (c :: acc) else (i, acc.reverse)
+
+/-- `read_sym`: reserved names stay bare, dotted names and names outside a module too,
+    everything else is qualified with the current module -/
+def readSym (cfg : Cfg) (t : Text) (i : Nat) (m : PState) : Nat × Node :=
+  let (i', x) := readSymGo cfg (t.drop i) i []
+  if reservedNames.contains x then (i', .sym x)
+  else match m.mod with
+    | some md => if x.head? == some '.' then (i', .sym x) else (i', .sym (x ++ '`' :: md))
+    | none => (i', .sym x)
+
+/-- `read_op`: `\~` and `\*` are two characters, anything else one -/
+def readOp (t : Text) (i : Nat) : Nat × Node :=
+  if cmatch2 t i '\\' '~' || cmatch2 t i '\\' '*' then (i + 2, .op (slice t i (i + 2)))
+  else (i + 1, .op (slice t i (i + 1)))
+
+def adverbs2 : List (List Char) :=
+  [[':', '\\'], [':', '\''], [':', '/'], [':', '~'], [':', '*'], ['\\', '~'], ['\\', '*'], ['@', '\'']]
+
+def adverbs1 : List (List Char) := [['\''], ['/'], ['\\']]
+
+/-- `peek_adverb` -/
+def peekAdverb (t : Text) (i : Nat) : Nat × Option (List Char) :=
+  if i + 1 < t.length && adverbs2.contains (slice t i (i + 2)) then (i + 2, some (slice t i (i + 2)))
+  else if i < t.length && adverbs1.contains (slice t i (i + 1)) then (i + 1, some (slice t i (i + 1)))
+  else (i, none)
+
+/-- the `while aa is not None` loop of `_apply_adverbs`, over the suffix -/
+def isAdverb2 (c : Char) (o : Option Char) : Bool :=
+  match o with
+  | some d => adverbs2.contains [c, d]
+  | none => false
+
+def adverbsGo : List Char → Nat → List Node → Nat × List Node
+  | [], i, acc => (i, acc.reverse)
+  | c :: cs, i, acc =>
+    if isAdverb2 c cs.head? then
+      match cs with
+      | d :: cs' => adverbsGo cs' (i + 2) (Node.adv (.str [c, d]) 1 :: acc)
+      | [] => (i, acc.reverse)
+    else if adverbs1.contains [c] then adverbsGo cs (i + 1) (Node.adv (.str [c]) 1 :: acc)
+    else (i, acc.reverse)
+
+/-- `get_adverb_arity` -/
+def adverbArity (s : List Char) (ctx : Nat) : Nat :=
+  if s == ['\''] then ctx
+  else if s == [':', '~'] || s == [':', '*'] || s == ['\\', '~'] || s == ['\\', '*'] || s == ['@', '\''] then 1
+  else 2
+
+/-! ## `.comment(marker)` -/
+
+def startsWith : List Char → List Char → Bool
+  | _, [] => true
+  | [], _ :: _ => false
+  | c :: cs, p :: ps => c == p && startsWith cs ps
+
+/-- `s.index(a)` -/
+def findSub (a : List Char) : List Char → Nat → Option Nat
+  | [], j => if a.isEmpty then some j else none
+  | c :: cs, j => if startsWith (c :: cs) a then some j else findSub a cs (j + 1)
+
+/-- `while [a and] t[i+j+1:].startswith(a): j += 1` with an explicit bound; `none` = the bound
+    was hit: the real loop is still running -/
+def commentLoop (cfg : Cfg) (t : Text) (a : List Char) (i : Nat) : (bound : Nat) → (j : Nat) → Option Nat
+  | 0, _ => none
+  | b + 1, j =>
+    if (!cfg.guardEmptyMarker || !a.isEmpty) && startsWith (t.drop (i + j + 1)) a
+    then commentLoop cfg t a i b (j + 1) else some j
+
+/-- `read_sys_comment(t, i, a)` for a str marker -/
+def readSysComment {α} (cfg : Cfg) (t : Text) (i : Nat) (a : List Char) (m : PState)
+    (k : Nat → Nat → Res α) : Res α :=
+  match findSub a (t.drop i) 0 with
+  | none => .err .runtimeError m (t.length - i + 1)
+  | some j0 =>
+    match commentLoop cfg t a i (t.length + 1) j0 with
+    | none => .spin (2 * t.length + 2)
+    | some j => k (i + j + a.length) (t.length - i + 1 + (j - j0 + 1))
+
+/-! ## `get_fn_arity`, `list_to_dict`, `parse_module` -/
+
+mutual
+  /-- `_e(f, level=1)`: the reserved symbols mentioned, as flags for x, y, z -/
+  def usedArgs : Node → Bool × Bool × Bool
+    | .sym n => (n == ['x'], n == ['y'], n == ['z'])
+    | .fn a hasArgs args _ _ =>
+      let (x1, y1, z1) := usedArgs a
+      let (x2, y2, z2) := if hasArgs then usedArgsL args else (false, false, false)
+      (x1 || x2, y1 || y2, z1 || z2)
+    | .mfn a x =>
+      let (x1, y1, z1) := usedArgs a
+      let (x2, y2, z2) := match x with
+        | .pylist xs => usedArgsL xs
+        | .cond xs => usedArgsL xs
+        | .exprArr xs => usedArgsL xs
+        | _ => (false, false, false)
+      (x1 || x2, y1 || y2, z1 || z2)
+    | .pylist xs => usedArgsL xs
+    | .cond xs => usedArgsL xs
+    | .exprArr xs => usedArgsL xs
+    | _ => (false, false, false)
+  def usedArgsL : List Node → Bool × Bool × Bool
+    | [] => (false, false, false)
+    | x :: xs =>
+      let (x1, y1, z1) := usedArgs x
+      let (x2, y2, z2) := usedArgsL xs
+      (x1 || x2, y1 || y2, z1 || z2)
+end
+
+def countFlags (f : Bool × Bool × Bool) : Nat :=
+  (if f.1 then 1 else 0) + (if f.2.1 then 1 else 0) + (if f.2.2 then 1 else 0)
+
+/-- `get_fn_arity(f)`: for a call of a non-reserved symbol the number of distinct
+    reserved symbols / holes among its arguments (`set(f.args)` raises TypeError for missing
+    or unhashable arguments), otherwise the number of distinct x, y, z mentioned -/
+def fnArity (f : Node) : Except Err Nat :=
+  match f with
+  | .fn (.sym n) hasArgs args _ _ =>
+    if !reservedNames.contains n then
+      if !hasArgs then .error .typeError
+      else if args.any Node.unhashable then .error .typeError
+      else .ok (countFlags (usedArgsL (args.filter Node.isReserved)) + (if hasNone args then 1 else 0))
+    else .ok (countFlags (usedArgs f))
+  | _ => .ok (countFlags (usedArgs f))
+
+/-- one `x[0]: x[1]` of `list_to_dict` -/
+def dictEntryErr : Node → Option Err
+  | .pylist (k :: _ :: _) => if k.unhashable then some .typeError else none
+  | .pylist _ => some .indexError
+  | .str (_ :: _ :: _) => none
+  | .str _ => some .indexError
+  | .sym (_ :: _ :: _) => none
+  | .sym _ => some .indexError
+  | .chr _ => some .indexError
+  | _ => some .typeError
+
+def listToDictErr : List Node → Option Err
+  | [] => none
+  | x :: xs => match dictEntryErr x with
+    | some e => some e
+    | none => listToDictErr xs
+
+def stripZeros : List Char → List Char
+  | [] => []
+  | c :: cs => if c == '0' && !cs.isEmpty then stripZeros cs else c :: cs
+
+def arityStr (n : Nat) : List Char :=
+  if n == 0 then ":nilad".toList else if n == 1 then ":monad".toList
+  else if n == 2 then ":dyad".toList else ":triad".toList
+
+/-- `str(x)` where the model describes it -/
+def pyStr : Node → Option (List Char)
+  | .str s => some s
+  | .chr c => some [c]
+  | .sym n => some n
+  | .int src => some (stripZeros src)
+  | .fn _ _ _ ar _ => some (arityStr ar)
+  | .mfn _ _ => some (arityStr 1)
+  | .none => some "None".toList
+  | _ => none
+
+def beforeBacktick : List Char → List Char
+  | [] => []
+  | c :: cs => if c == '`' then [] else c :: beforeBacktick cs
+
+/-- `parse_module(name)` -/
+def parseModule (m : PState) (name : Node) : PState :=
+  match name with
+  | .none => { m with mod := none }       -- str(None) has no backtick: module = None
+  | .int src => if src.all (· == '0') then { m with mod := none } else { m with mod := some (stripZeros src) }
+  | .str [] => { m with mod := none }
+  | .arr [] => { m with mod := none }
+  | .exprArr [] => { m with mod := none }
+  | x => match pyStr x with
+    | some s => { m with mod := some (beforeBacktick s) }
+    | none => { mod := some ['?'], exotic := true }
+
+/-! ## `kg_read` and `read_list` (mutually recursive, fuel) -/
+
+def puncts : List Char := [';', '(', ')', '{', '}', ']']
+
+mutual
+  /-- `kg_read(t, i, read_neg, ignore_newline, module)` -/
+  def kgRead (cfg : Cfg) (t : Text) : (fuel : Nat) → (i : Nat) → (readNeg ign : Bool) → PState → Res Node
+    | 0, _, _, _, _ => .outOfFuel
+    | fuel + 1, i0, readNeg, ign, m =>
+      let i := skip cfg t i0 ign
+      let st := i - i0 + 1
+      match t[i]? with
+      | none => .ok i .none m st
+      | some a0 =>
+        let a := if a0 == '\n' then ';' else a0
+        if puncts.contains a then .ok (i + 1) (.str [a]) m st
+        else if cmatch2 t i '0' 'c' then
+          match t[i + 2]? with
+          | none => .err (.unexpectedEOF (i + 2)) m st
+          | some c => .ok (i + 3) (.chr c) m st
+        else if cfg.isNumeric a || (readNeg && a == '-' && (match t[i + 1]? with | some d => cfg.isNumeric d | none => false)) then
+          match readNum cfg t i with
+          | (i', some v) => .ok i' v m (st + (i' - i))
+          | (i', none) => .err .valueError m (st + (i' - i))
+        else if a == '"' then
+          let (i', s) := readString t (i + 1)
+          .ok i' (.str s) m (st + (i' - i))
+        else if a == ':' && i + 1 < t.length then
+          match t[i + 1]? with
+          | none => .ok (i + 2) (.op [':']) m st   -- unreachable
+          | some aa =>
+            if cfg.isAlpha aa || aa == '.' then
+              let (i', v) := readSym cfg t (i + 1) m
+              .ok i' v m (st + (i' - i))
+            else if cfg.isNumeric aa || aa == '"' then
+              (kgRead cfg t fuel (i + 1) false ign m).addSteps st
+            else if aa == '{' then
+              (readList cfg t fuel '}' (i + 2) m).bind fun i' d m' =>
+                match listToDictErr d with
+                | some e => .err e m' (st + d.length)
+                | none => .ok i' (.dict d) m' (st + d.length)
+            else if aa == '[' then .ok (i + 2) (.str [':', '[']) m st
+            else if aa == '|' then .ok (i + 2) (.str [':', '|']) m st
+            else .ok (i + 2) (.op [':', aa]) m st
+        else if a == '[' then
+          (readList cfg t fuel ']' (i + 1) m).bind fun i' d m' => .ok i' (.pylist d) m' st
+        else if isSymbolic cfg a then
+          let (i', v) := readSym cfg t i m
+          .ok i' v m (st + (i' - i))
+        else
+          let (i', v) := readOp t i
+          .ok i' v m st
+
+  /-- `read_list(t, delim, i, module)` -/
+  def readList (cfg : Cfg) (t : Text) : (fuel : Nat) → (delim : Char) → (i : Nat) → PState → Res (List Node)
+    | 0, _, _, _ => .outOfFuel
+    | fuel + 1, delim, i0, m =>
+      let i := skip cfg t i0 true
+      (readListLoop cfg t fuel delim i [] m).addSteps (i - i0 + 1)
+
+  /-- the `while not cmatch(t,i,delim) and i < len(t)` loop of `read_list` -/
+  def readListLoop (cfg : Cfg) (t : Text) : (fuel : Nat) → (delim : Char) → (i : Nat) → (acc : List Node) → PState → Res (List Node)
+    | 0, _, _, _, _ => .outOfFuel
+    | fuel + 1, delim, i, acc, m =>
+      if !cmatch t i delim && i < t.length then
+        (kgRead cfg t fuel i true true m).bind fun i1 q m1 =>
+          if q.isNone then
+            .ok (if cmatch t i1 delim then i1 + 1 else i1) acc.reverse m1 1
+          else
+            let cont : Nat → Node → PState → Res (List Node) := fun i2 q2 m2 =>
+              let i3 := skip cfg t i2 true
+              if i < i3 then (readListLoop cfg t fuel delim i3 (q2 :: acc) m2).addSteps (i3 - i2 + 1)
+              else .spin 1
+            if q.isStr ['['] then
+              (readList cfg t fuel ']' i1 m1).bind fun i2 l m2 => cont i2 (.pylist l) m2
+            else cont i1 q m1
+      else .ok (if cmatch t i delim then i + 1 else i) acc.reverse m 1
+end
+
+/-- `kg_read_array`: a list becomes an ndarray -/
+def kgReadArray (cfg : Cfg) (t : Text) (fuel : Nat) (i : Nat) (ign : Bool) (m : PState) : Res Node :=
+  match kgRead cfg t fuel i false ign m with
+  | .ok i' (.pylist xs) m' st => .ok i' (.arr xs) m' st
+  | r => r
+
+/-! ## the recursive-descent parser (mutually recursive, fuel) -/
+
+def oneOrList (xs : List Node) : Node :=
+  match xs with
+  | [x] => x
+  | _ => .pylist xs
+
+/-- does an argument list start here: `(` or `:(` -/
+def argsAhead (t : Text) (i : Nat) : Bool := cmatch t i '(' || cmatch2 t i ':' '('
+
+def mkCall (a : Node) (fa : List Node) (arity : Nat) : Node :=
+  .fn a true fa arity (!hasNone fa)
+
+mutual
+  /-- `prog(t, i, ignore_newline)` -/
+  def prog (cfg : Cfg) (t : Text) : (fuel : Nat) → (i : Nat) → (ign : Bool) → PState → Res (List Node)
+    | 0, _, _, _ => .outOfFuel
+    | fuel + 1, i, ign, m => (progLoop cfg t fuel i ign [] m).addSteps 1
+
+  /-- the `while i < len(t)` loop of `prog` -/
+  def progLoop (cfg : Cfg) (t : Text) : (fuel : Nat) → (i : Nat) → (ign : Bool) → (acc : List Node) → PState → Res (List Node)
+    | 0, _, _, _, _ => .outOfFuel
+    | fuel + 1, i, ign, acc, m =>
+      if i < t.length then
+        (expr cfg t fuel i ign m).bind fun i1 q m1 =>
+          if q.isNone || q.isStr [';'] then
+            if i < i1 then (progLoop cfg t fuel i1 ign acc m1).addSteps 1 else .spin 1
+          else
+            (kgRead cfg t fuel i1 false ign m1).bind fun ii c m2 =>
+              if !c.isStr [';'] then .ok i1 (q :: acc).reverse m2 1
+              else if i < ii then (progLoop cfg t fuel ii ign (q :: acc) m2).addSteps 1
+              else .spin 1
+      else .ok i acc.reverse m 1
+
+  /-- `_expr(t, i, ignore_newline)` -/
+  def expr (cfg : Cfg) (t : Text) : (fuel : Nat) → (i : Nat) → (ign : Bool) → PState → Res Node
+    | 0, _, _, _ => .outOfFuel
+    | fuel + 1, i, ign, m =>
+      (factor cfg t fuel i ign m).bind fun i1 a m1 =>
+        if a.isNone || a.isStr [';'] then .ok i1 a m1 1
+        else
+          (kgRead cfg t fuel i1 false ign m1).bind fun ii aa m2 =>
+            (exprLoop cfg t fuel i1 a ii aa ign m2).addSteps 1
+
+  /-- the `while isinstance(aa,(KGOp,KGSym)) or safe_eq(aa,'{')` loop of `_expr`:
+      `i` is the end of the expression so far, `(ii, aa)` the lookahead -/
+  def exprLoop (cfg : Cfg) (t : Text) : (fuel : Nat) → (i : Nat) → (a : Node) → (ii : Nat) → (aa : Node) → (ign : Bool) → PState → Res Node
+    | 0, _, _, _, _, _, _ => .outOfFuel
+    | fuel + 1, i, a, ii, aa, ign, m =>
+      if aa.isOpOrSym || aa.isStr ['{'] then
+        -- the verb: an operator, a symbol (maybe applied to arguments), or a function
+        let verb : Res Node :=
+          if aa.isStr ['{'] then
+            (prog cfg t fuel ii true m).bind fun i2 body m2 =>
+              let b := oneOrList body
+              let i3 := skip cfg t i2 true
+              cexpect t i3 '}' m2 fun i4 =>
+                match fnArity b with
+                | .error e => .err e m2 (i3 - i2 + 1)
+                | .ok arity =>
+                  if argsAhead t i4 then
+                    (readFnArgs cfg t fuel i4 m2).bind fun i5 fa m3 => .ok i5 (mkCall b fa arity) m3 (i3 - i2 + 1)
+                  else .ok i4 (.fn b false [] arity false) m2 (i3 - i2 + 1)
+          else if aa.isSym && argsAhead t ii then
+            (readFnArgs cfg t fuel ii m).bind fun i5 fa m3 => .ok i5 (mkCall aa fa fa.length) m3 1
+          else .ok ii aa m 1
+        verb.bind fun i5 v m3 =>
+          let step : Res Node :=
+            match peekAdverb t i5 with
+            | (i6, some adv) => applyAdverbs cfg t fuel i6 v adv 2 true a m3
+            | (_, none) =>
+              (expr cfg t fuel i5 ign m3).bind fun i7 aaa m4 => .ok i7 (.fn v true [a, aaa] 2 false) m4 1
+          step.bind fun i8 a' m5 =>
+            (kgRead cfg t fuel i8 false ign m5).bind fun ii' aa' m6 =>
+              if i < i8 then (exprLoop cfg t fuel i8 a' ii' aa' ign m6).addSteps 1 else .spin 1
+      else if ign && a.isStr ['\n'] then
+        let i' := skip cfg t i true
+        .ok i' a m (i' - i + 1)
+      else .ok i a m 1
+
+  /-- `_apply_adverbs(t, i, a, aa, arity, dyad, dyad_value)` -/
+  def applyAdverbs (cfg : Cfg) (t : Text) : (fuel : Nat) → (i : Nat) → (a : Node) → (aa : List Char) → (arity : Nat) → (dyad : Bool) → (dv : Node) → PState → Res Node
+    | 0, _, _, _, _, _, _, _ => .outOfFuel
+    | fuel + 1, i, a, aa, arity, dyad, dv, m =>
+      let first := Node.adv a (adverbArity aa arity)
+      let (i1, more) := adverbsGo (t.drop i) i []
+      (expr cfg t fuel i1 false m).bind fun i2 x m1 =>
+        let operand := if dyad then Node.pylist [dv, x] else x
+        .ok i2 (.fn (.pylist (first :: Node.adv (.str aa) arity :: more ++ [operand])) false [] (if dyad then 2 else 1) true) m1 (i1 - i + 1)
+
+  /-- `_read_fn_args(t, i)` -/
+  def readFnArgs (cfg : Cfg) (t : Text) : (fuel : Nat) → (i : Nat) → PState → Res (List Node)
+    | 0, _, _ => .outOfFuel
+    | fuel + 1, i, m =>
+      let i1 := if cmatch t i '(' then i + 1 else i + 2
+      if !argsAhead t i then .err (.unexpectedChar i) m 1
+      else if cmatch t i1 ')' then .ok (i1 + 1) [] m 1
+      else (fnArgsLoop cfg t fuel i1 i1 [] m).addSteps 1
+
+  /-- the `while True` loop of `_read_fn_args`; `k` is the index after the last separator -/
+  def fnArgsLoop (cfg : Cfg) (t : Text) : (fuel : Nat) → (i k : Nat) → (acc : List Node) → PState → Res (List Node)
+    | 0, _, _, _, _ => .outOfFuel
+    | fuel + 1, i, k, acc, m =>
+      (kgRead cfg t fuel i false true m).bind fun ii c m1 =>
+        if c.isStr [';'] then
+          let acc' := if k + 1 == ii then .none :: acc else acc
+          if i < ii then (fnArgsLoop cfg t fuel ii ii acc' m1).addSteps 1 else .spin 1
+        else if c.isStr [')'] then
+          let acc' := if k + 1 == ii then .none :: acc else acc
+          cexpect t i ')' m1 fun i' => .ok i' acc'.reverse m1 1
+        else
+          (expr cfg t fuel i true m1).bind fun i2 a m2 =>
+            if a.isNone then cexpect t i2 ')' m2 fun i' => .ok i' acc.reverse m2 1
+            else if i < i2 then (fnArgsLoop cfg t fuel i2 k (a :: acc) m2).addSteps 1
+            else .spin 1
+
+  /-- `read_cond(klong, t, i)` -/
+  def readCond (cfg : Cfg) (t : Text) : (fuel : Nat) → (i : Nat) → PState → Res Node
+    | 0, _, _ => .outOfFuel
+    | fuel + 1, i, m =>
+      (expr cfg t fuel i true m).bind fun i1 n1 m1 =>
+        cexpect t i1 ';' m1 fun i2 =>
+          (expr cfg t fuel i2 true m1).bind fun i3 n2 m2 =>
+            let i4 := skip cfg t i3 true
+            if cmatch2 t i4 ':' '|' then
+              (readCond cfg t fuel (i4 + 2) m2).bind fun i5 n3 m3 => .ok i5 (.cond [n1, n2, n3]) m3 (i4 - i3 + 1)
+            else
+              cexpect t i4 ';' m2 fun i5 =>
+                (expr cfg t fuel i5 true m2).bind fun i6 n3 m3 =>
+                  let i7 := skip cfg t i6 true
+                  cexpect t i7 ']' m3 fun i8 => .ok i8 (.cond [n1, n2, n3]) m3 (i4 - i3 + (i7 - i6) + 2)
+
+  /-- `read_expr_array(klong, t, i)` -/
+  def readExprArray (cfg : Cfg) (t : Text) : (fuel : Nat) → (i : Nat) → PState → Res (List Node)
+    | 0, _, _ => .outOfFuel
+    | fuel + 1, i0, m =>
+      let i := skip cfg t i0 true
+      (exprArrayLoop cfg t fuel i [] m).addSteps (i - i0 + 1)
+
+  /-- the `while i < len(t) and not cmatch(t, i, ']')` loop of `read_expr_array` -/
+  def exprArrayLoop (cfg : Cfg) (t : Text) : (fuel : Nat) → (i : Nat) → (acc : List Node) → PState → Res (List Node)
+    | 0, _, _, _ => .outOfFuel
+    | fuel + 1, i, acc, m =>
+      if i < t.length && !cmatch t i ']' then
+        (expr cfg t fuel i true m).bind fun i1 e m1 =>
+          let acc' := if e.isNone then acc else e :: acc
+          let i2 := skip cfg t i1 true
+          if cmatch t i2 ';' then
+            let i3 := skip cfg t (i2 + 1) true
+            if i < i3 then (exprArrayLoop cfg t fuel i3 acc' m1).addSteps (i2 - i1 + (i3 - i2) + 1) else .spin 1
+          else if cmatch t i2 ']' then .ok (i2 + 1) acc'.reverse m1 (i2 - i1 + 1)
+          else if i < i2 then (exprArrayLoop cfg t fuel i2 acc' m1).addSteps (i2 - i1 + 1)
+          else .spin 1
+      else .ok (if cmatch t i ']' then i + 1 else i) acc.reverse m 1
+
+  /-- `_factor(t, i, ignore_newline)` -/
+  def factor (cfg : Cfg) (t : Text) : (fuel : Nat) → (i : Nat) → (ign : Bool) → PState → Res Node
+    | 0, _, _, _ => .outOfFuel
+    | fuel + 1, i, ign, m =>
+      let ii := skip cfg t i ign
+      if cmatch2 t ii '[' ';' then
+        (readExprArray cfg t fuel (ii + 2) m).bind fun i1 es m1 => .ok i1 (.exprArr es) m1 (ii - i + 1)
+      else
+        (kgReadArray cfg t fuel i ign m).bind fun i1 a m1 =>
+          -- an adverb after the factor
+          let adverbed : Nat → Node → PState → Res Node := fun i2 v m2 =>
+            match peekAdverb t i2 with
+            | (i3, some adv) => applyAdverbs cfg t fuel i3 v adv 1 false .none m2
+            | (_, none) => .ok i2 v m2 1
+          if a.isNone then .ok i1 a m1 1
+          else if a.isStr ['{'] then
+            (prog cfg t fuel i1 true m1).bind fun i2 body m2 =>
+              let b := oneOrList body
+              let i3 := skip cfg t i2 true
+              cexpect t i3 '}' m2 fun i4 =>
+                match fnArity b with
+                | .error e => .err e m2 (i3 - i2 + 1)
+                | .ok arity =>
+                  if argsAhead t i4 then
+                    (readFnArgs cfg t fuel i4 m2).bind fun i5 fa m3 =>
+                      (adverbed i5 (mkCall b fa arity) m3).addSteps (i3 - i2 + 1)
+                  else (adverbed i4 (.fn b false [] arity false) m2).addSteps (i3 - i2 + 1)
+          else if a.isSym then
+            if argsAhead t i1 then
+              (readFnArgs cfg t fuel i1 m1).bind fun i2 fa m2 =>
+                let call := mkCall a fa fa.length
+                match a with
+                  | .sym name =>
+                    if name == ".comment".toList then
+                      match fa with
+                      | [] => .err .indexError m2 1
+                      | mk :: _ =>
+                        let marker : Option (List Char) := match mk with
+                          | .str s => some s
+                          | .chr c => some [c]
+                          | .sym s => some s
+                          | _ => none
+                        match marker with
+                        | none => .err .typeError m2 1
+                        | some mk =>
+                          readSysComment cfg t i2 mk m2 fun i3 st =>
+                            (factor cfg t fuel i3 ign m2).addSteps st
+                    else if name == ".module".toList then
+                      match fa with
+                      | [] => .err .indexError m2 1
+                      | nm :: _ => adverbed i2 call (parseModule m2 nm)
+                    else adverbed i2 call m2
+                  | _ => adverbed i2 call m2
+            else adverbed i1 a m1
+          else if (match a with | .op name => cfg.monads.contains name | _ => false) then
+            match peekAdverb t i1 with
+            | (i3, some adv) => applyAdverbs cfg t fuel i3 a adv 1 false .none m1
+            | (_, none) =>
+              (expr cfg t fuel i1 ign m1).bind fun i2 x m2 => .ok i2 (.mfn a x) m2 1
+          else if a.isStr ['('] then
+            (expr cfg t fuel i1 ign m1).bind fun i2 x m2 =>
+              cexpect t i2 ')' m2 fun i3 => .ok i3 x m2 1
+          else if a.isStr [':', '['] then readCond cfg t fuel i1 m1
+          else .ok i1 a m1 1
+end
+
+/-! ## entry points -/
+
+/-- fuel that is always enough (see `parse_terminates`) -/
+def fuelFor (t : Text) : Nat := 8 * (t.length + 1)
+
+/-- `KlongInterpreter.prog(text)` in a fresh parser state -/
+def parseWith (cfg : Cfg) (fuel : Nat) (m : PState) (t : Text) : Res (List Node) := prog cfg t fuel 0 false m
+
+def parse (cfg : Cfg) (t : Text) : Res (List Node) := parseWith cfg (fuelFor t) {} t
+
+/-! ## the ASCII configuration used by the driver and the examples -/
+
+def asciiSpace (c : Char) : Bool :=
+  c == ' ' || c == '\t' || c == '\n' || c == '\r' || c == '\x0b' || c == '\x0c' ||
+  c == '\x1c' || c == '\x1d' || c == '\x1e' || c == '\x1f'
+
+def asciiAlpha (c : Char) : Bool := ('a' ≤ c && c ≤ 'z') || ('A' ≤ c && c ≤ 'Z')
+
+def monadNames : List (List Char) :=
+  ["!", "#", "$", "%", "&", "*", "+", ",", "-", ":#", ":_", "<", "=", ">", "?", "@", "^", "_", "|", "~",
+   "˙", "∇"].map String.toList
+
+/-- the repaired tree -/
+def asciiCfg : Cfg :=
+  { isSpace := asciiSpace, isAlpha := asciiAlpha, isDigit := isAsciiDigit, isNumeric := isAsciiDigit,
+    monads := monadNames, guardEmptyMarker := true }
+
+/-- the pinned tree: `read_sys_comment` without the guard -/
+def pinnedCfg : Cfg := { asciiCfg with guardEmptyMarker := false }
+
+/-! ## driver: canonical dump and line protocol -/
+
+def cps (s : List Char) : String := ".".intercalate (s.map fun c => toString c.toNat)
+
+def intStr (src : List Char) : String :=
+  match src with
+  | '-' :: ds => let z := stripZeros ds; if z == ['0'] then "0" else "-" ++ String.ofList z
+  | ds => String.ofList (stripZeros ds)
+
+mutual
+  def dump : Node → String
+    | .none => "N"
+    | .str s => "S" ++ cps s
+    | .chr c => "C" ++ toString c.toNat
+    | .int src => "I" ++ intStr src
+    | .flt _ => "F"
+    | .sym n => "Y" ++ cps n
+    | .op n => "O" ++ cps n
+    | .pylist xs => "L(" ++ dumpL xs ++ ")"
+    | .arr xs => "A" ++ toString xs.length
+    | .dict _ => "D"
+    | .fn a hasArgs args arity call =>
+      "K" ++ (if call then "c" else "f") ++ toString arity ++ "(" ++ dump a ++ ";" ++
+        (if hasArgs then "L(" ++ dumpL args ++ ")" else "-") ++ ")"
+    | .mfn a .none => "Kf1(" ++ dump a ++ ";-)"     -- KGFn(op, None, 1): the operand was missing
+    | .mfn a x => "M(" ++ dump a ++ ";" ++ dump x ++ ")"
+    | .adv a _ => "V(" ++ dump a ++ ")"
+    | .cond xs => "Q(" ++ dumpL xs ++ ")"
+    | .exprArr xs => "E(" ++ dumpL xs ++ ")"
+  def dumpL : List Node → String
+    | [] => ""
+    | [x] => dump x
+    | x :: xs => dump x ++ "," ++ dumpL xs
+end
+
+def showMod (m : PState) : String :=
+  (match m.mod with
+   | none => "-"
+   | some [] => "e"
+   | some s => cps s) ++ " exotic=" ++ (if m.exotic then "1" else "0")
+
+def showErr : Err → String
+  | .unexpectedChar p => s!"UnexpectedChar pos={p}"
+  | .unexpectedEOF p => s!"UnexpectedEOF pos={p}"
+  | .valueError => "ValueError pos=-"
+  | .typeError => "TypeError pos=-"
+  | .indexError => "IndexError pos=-"
+  | .runtimeError => "RuntimeError pos=-"
+
+def showRes : Res (List Node) → String
+  | .ok i v m st => s!"ok i={i} st={st} mod={showMod m} ast={dumpL v}"
+  | .err e m st => s!"err kind={showErr e} st={st} mod={showMod m}"
+  | .spin st => s!"spin st={st}"
+  | .outOfFuel => "fuel"
+
+def parseCps (s : String) : Option (List Char) :=
+  (Wire.splitOnChar s '.').mapM fun w => w.toNat?.map Char.ofNat
 
 structure State where
   unit : Unit := ()
 
 def init : State := {}
 
-def handle (s : State) (_ws : List String) : State × String := (s, "bad-op")
+/-- `parse t=<code points> [mod=<code points>] [pinned=1] [fuel=<n>]` -/
+def handle (s : State) (ws : List String) : State × String :=
+  match ws with
+  | "parse" :: rest =>
+    let fs := Wire.fields rest
+    match parseCps (Wire.fieldD fs "t"), parseCps (Wire.fieldD fs "mod") with
+    | some t, some md =>
+      let cfg := if Wire.fieldD fs "pinned" == "1" then pinnedCfg else asciiCfg
+      let m : PState := { mod := if (Wire.field fs "mod").isSome then some md else none }
+      let fuel := (Wire.natField fs "fuel").getD (fuelFor t)
+      (s, showRes (parseWith cfg fuel m t))
+    | _, _ => (s, "bad-op")
+  | ["monads"] => (s, "monads " ++ ",".intercalate (monadNames.map cps))
+  | _ => (s, "bad-op")
 
 end Klong.C12
